@@ -26,6 +26,7 @@ type c14Case struct {
 	V5     bool     `json:"v5,omitempty"`
 	Max    int      `json:"max"`
 	Topics []int    `json:"topics,omitempty"`
+	Exp    []int    `json:"exp,omitempty"` // indices into Topics of messages published with expiry 1 s (elapsed when dequeued)
 	Pkts   []c14Pkt `json:"pkts,omitempty"`
 }
 
@@ -56,6 +57,9 @@ func (p *c14Prop) Gen(r *Rng, i int, tier string) interface{} {
 		n := 2 + r.Intn(20)
 		for k := 0; k < n; k++ {
 			c.Topics = append(c.Topics, 1+r.Intn(distinct))
+			if r.Chance(12) {
+				c.Exp = append(c.Exp, k)
+			}
 		}
 		return c
 	}
@@ -167,14 +171,37 @@ func (p *c14Prop) Run(ci interface{}) interface{} {
 			return obs
 		}
 		pa := pc.Auto(false)
-		for k, t := range c.Topics {
-			_ = pa.SendL(mkPublish(mqttp.ProtocolV50, fmt.Sprintf("al/%d", t), []byte{byte(k)}, 0, false, 0))
+		isExp := map[int]bool{}
+		for _, k := range c.Exp {
+			isExp[k] = true
 		}
-		if !s.WaitFor(5*time.Second, func() bool { return len(s.Pubs) >= len(c.Topics) }) {
-			obs.Err = fmt.Sprintf("received %d of %d", s.NPubs(), len(c.Topics))
+		want := 0
+		for k, t := range c.Topics {
+			m := mkPublish(mqttp.ProtocolV50, fmt.Sprintf("al/%d", t), []byte{byte(k)}, 0, false, 0)
+			if isExp[k] {
+				_ = m.PropertySet(mqttp.PropertyPublicationExpiry, uint32(1))
+			} else {
+				want++
+			}
+			_ = pa.SendL(m)
+		}
+		// end marker on a topic of its own (never aliased: it is filtered out below)
+		_ = pa.SendL(mkPublish(mqttp.ProtocolV50, "al/9999", []byte{255}, 0, false, 0))
+		if !s.WaitFor(5*time.Second, func() bool {
+			for _, m := range s.Pubs {
+				if len(m.Payload()) == 1 && m.Payload()[0] == 255 {
+					return true
+				}
+			}
+			return false
+		}) {
+			obs.Err = fmt.Sprintf("end marker not received (%d of %d)", s.NPubs(), want)
 		}
 		s.mu.Lock()
 		for _, m := range s.Pubs {
+			if len(m.Payload()) == 1 && m.Payload()[0] == 255 {
+				continue
+			}
 			var al *int
 			if prop := m.PropertyGet(mqttp.PropertyTopicAlias); prop != nil {
 				if v, e := prop.AsShort(); e == nil {
@@ -286,15 +313,19 @@ func (p *c14Prop) Coq(ci interface{}, oi interface{}) string {
 	c := ci.(*c14Case)
 	o := oi.(*c14Obs)
 	if c.Kind == "out" {
-		ts := make([]uint64, len(c.Topics))
+		isExp := map[int]bool{}
+		for _, k := range c.Exp {
+			isExp[k] = true
+		}
+		ts := make([]string, len(c.Topics))
 		for i, t := range c.Topics {
-			ts[i] = uint64(t)
+			ts[i] = fmt.Sprintf("(%s, %s)", cN(uint64(t)), cBool(isExp[i]))
 		}
 		ob := make([]string, len(o.Out))
 		for i, x := range o.Out {
 			ob[i] = fmt.Sprintf("(%s, %s)", cOptInt(x[0]), cOptInt(x[1]))
 		}
-		return fmt.Sprintf("(COut %s %s %s %s %s)", cBool(c.V5), cN(uint64(c.Max)), cNs(ts), cList(ob), cBool(o.Err == ""))
+		return fmt.Sprintf("(COut %s %s %s %s %s)", cBool(c.V5), cN(uint64(c.Max)), cList(ts), cList(ob), cBool(o.Err == ""))
 	}
 	pk := make([]string, len(c.Pkts))
 	for i, x := range c.Pkts {
